@@ -9,7 +9,7 @@ mkdir -p .cache work evidence
 targets=$(python3 - <<'PY'
 import json
 m = json.load(open("MANIFEST.json"))
-print(" ".join(["theories/Judge/Extract.vo"] + ["theories/Props/%s.vo" % c["property_id"] for c in m["checks"]]))
+print(" ".join(["theories/Judge/Extract.vo", "theories/Props/C16Findings.vo"] + ["theories/Props/%s.vo" % c["property_id"] for c in m["checks"]]))
 PY
 )
 (cd coq && coq_makefile -f _CoqProject -o Makefile && timeout 3000 make -j16 "COQC=timeout 1200 coqc" $targets)
